@@ -9,7 +9,7 @@
 From RM Require Import C12.Model C12.ProgModel C12.ProgProofs.
 From Coq Require Import Lia.
 
-Inductive cls := COut | CHold | CPre | CMid | CPost.
+Inductive cls := COut | CHold | CPre | CMid | CPost | CUse.
 Definition cls_of (kont : list instr) : cls :=
   match kont with
   | IIfNone _ :: _ => CHold
@@ -17,9 +17,10 @@ Definition cls_of (kont : list instr) : cls :=
   | ISupPoll :: _ | IProcessedInc :: _ | IStatsNew :: _ | IStatsClassify :: _ | ILeafKey :: _ | IStatsInsert :: _
   | IReturnResult :: _ | IStore :: _ => CMid
   | IReturnClone :: _ | IEndGet :: _ => CPost
+  | IUseResult :: _ => CUse
   | _ => COut
   end.
-Definition holds (x : cls) : bool := match x with COut => false | _ => true end.
+Definition holds (x : cls) : bool := match x with COut | CUse => false | _ => true end.
 Definition tkey (p : ptask) : option key := match fst (fst p) with (_, k) :: _ => Some k | [] => None end.
 Definition tcls (p : ptask) : cls := cls_of (snd (fst p)).
 
@@ -54,7 +55,7 @@ Definition local_ok (c : config) (p : ptask) : Prop :=
   | ((e, k) :: _, kont, l) => kont = [] \/ linv c k (is_file e) kont l
   end.
 
-Record GI (c : config) (s : pstate) : Prop := {
+Record GI (c : config) (ks : task -> list key) (s : pstate) : Prop := {
   gi_local : forall t, local_ok c (ppcs s t);
   gi_lock : forall k t, lock (psh s) k = Some t <-> (tkey (ppcs s t) = Some k /\ holds (tcls (ppcs s t)) = true);
   gi_value : forall k o, value (psh s) k = Some o -> o = outc c k /\ In k (calls (psh s));
@@ -66,31 +67,37 @@ Record GI (c : config) (s : pstate) : Prop := {
   gi_post : forall t k, tkey (ppcs s t) = Some k -> tcls (ppcs s t) = CPost -> value (psh s) k = Some (outc c k);
   gi_called : forall k, In k (calls (psh s)) ->
                         value (psh s) k <> None \/ exists u, tkey (ppcs s u) = Some k /\ tcls (ppcs s u) = CMid;
-  gi_results : forall t k o, In (k, o) (results (psh s) t) -> o = outc c k
+  gi_use : forall t k, tkey (ppcs s t) = Some k -> tcls (ppcs s t) = CUse -> value (psh s) k = Some (outc c k);
+  gi_results : forall t k o, In (k, o) (results (psh s) t) -> o = outc c k /\ value (psh s) k = Some o;
+  gi_complete : forall t, map fst (results (psh s) t) ++ map snd (fst (fst (ppcs s t))) = ks t
 }.
 
 (* what one instruction does to the part of the shared state the invariant talks about *)
-Inductive trans (c : config) (t : task) (k : key) (rest : list lookup) (s : shared) : cls -> ptask -> shared -> Prop :=
+Inductive trans (c : config) (t : task) (e : entry) (k : key) (rest : list lookup) (s : shared) : cls -> ptask -> shared -> Prop :=
 | T_stay : forall x p' s', lock s' = lock s -> value s' = value s -> calls s' = calls s -> results s' = results s ->
-    tkey p' = Some k -> tcls p' = x -> trans c t k rest s x p' s'
+    fst (fst p') = (e, k) :: rest -> tcls p' = x -> trans c t e k rest s x p' s'
 | T_acq : forall p' s', lock s k = None -> lock s' = upd (lock s) k (Some t) -> value s' = value s ->
-    calls s' = calls s -> results s' = results s -> tkey p' = Some k -> tcls p' = CHold -> trans c t k rest s COut p' s'
+    calls s' = calls s -> results s' = results s -> fst (fst p') = (e, k) :: rest -> tcls p' = CHold ->
+    trans c t e k rest s COut p' s'
 | T_hold_pre : forall p' s', value s k = None -> lock s' = lock s -> value s' = value s -> calls s' = calls s ->
-    results s' = results s -> tkey p' = Some k -> tcls p' = CPre -> trans c t k rest s CHold p' s'
+    results s' = results s -> fst (fst p') = (e, k) :: rest -> tcls p' = CPre -> trans c t e k rest s CHold p' s'
 | T_hold_post : forall p' s' o, value s k = Some o -> lock s' = lock s -> value s' = value s -> calls s' = calls s ->
-    results s' = results s -> tkey p' = Some k -> tcls p' = CPost -> trans c t k rest s CHold p' s'
+    results s' = results s -> fst (fst p') = (e, k) :: rest -> tcls p' = CPost -> trans c t e k rest s CHold p' s'
 | T_call : forall p' s', lock s' = lock s -> value s' = value s -> calls s' = calls s ++ [k] ->
-    results s' = results s -> tkey p' = Some k -> tcls p' = CMid -> trans c t k rest s CPre p' s'
+    results s' = results s -> fst (fst p') = (e, k) :: rest -> tcls p' = CMid -> trans c t e k rest s CPre p' s'
 | T_store : forall p' s', lock s' = lock s -> value s' = upd (value s) k (Some (outc c k)) -> calls s' = calls s ->
-    results s' = results s -> tkey p' = Some k -> tcls p' = CPost -> trans c t k rest s CMid p' s'
+    results s' = results s -> fst (fst p') = (e, k) :: rest -> tcls p' = CPost -> trans c t e k rest s CMid p' s'
 | T_release : forall p' s', lock s' = upd (lock s) k None -> value s' = value s -> calls s' = calls s ->
-    results s' = results s -> tkey p' = Some k -> tcls p' = COut -> trans c t k rest s CPost p' s'
+    results s' = results s -> fst (fst p') = (e, k) :: rest -> tcls p' = CUse -> trans c t e k rest s CPost p' s'
 | T_finish : forall s', lock s' = lock s -> value s' = value s -> calls s' = calls s ->
     results s' = upd (results s) t (results s t ++ [(k, outc c k)]) ->
-    trans c t k rest s COut (rest, [], l0) s'.
+    trans c t e k rest s CUse (rest, [], l0) s'.
 
 Lemma upd_other : forall A (f : nat -> A) i v j, j <> i -> upd f i v j = f j.
 Proof. intros. unfold upd. destruct (Nat.eqb j i) eqn:E; [apply Nat.eqb_eq in E; contradiction|reflexivity]. Qed.
+
+Lemma tkey_of_rem : forall (p : ptask) e k rest, fst (fst p) = (e, k) :: rest -> tkey p = Some k.
+Proof. intros [[r kk] ll] e k rest H. cbn in *. subst. reflexivity. Qed.
 
 Lemma tkey_rest_cls : forall (rest : list lookup), tcls (rest, [], l0) = COut.
 Proof. reflexivity. Qed.
@@ -100,8 +107,9 @@ Ltac tsplit u t Hme Hoth :=
 Ltac ksplit k0 k :=
   destruct (Nat.eq_dec k0 k) as [?Hek|?Hnk]; [subst k0; rewrite ?upd_same in * | rewrite ?upd_other in * by assumption].
 Ltac posefacts G u k0 :=
-  pose proof (gi_lock _ _ G k0 u); pose proof (gi_value _ _ G k0);
-  pose proof (gi_pre _ _ G u k0); pose proof (gi_mid _ _ G u k0); pose proof (gi_post _ _ G u k0).
+  pose proof (gi_lock _ _ _ G k0 u); pose proof (gi_value _ _ _ G k0);
+  pose proof (gi_pre _ _ _ G u k0); pose proof (gi_mid _ _ _ G u k0); pose proof (gi_post _ _ _ G u k0);
+  pose proof (gi_use _ _ _ G u k0).
 Ltac norm :=
   repeat match goal with
          | H : tkey (ppcs ?s ?t) = Some ?k |- _ => progress (rewrite H in * |-) 
@@ -126,11 +134,12 @@ Qed.
 
 Section Step.
 Variable c : config.
+Variable ks : task -> list key.
 
 Lemma gi_trans : forall s t e k rest kont l p' s',
-  GI c s -> ppcs s t = ((e, k) :: rest, kont, l) ->
-  trans c t k rest (psh s) (cls_of kont) p' s' -> local_ok c p' ->
-  GI c {| ppcs := upd (ppcs s) t p'; psh := s' |}.
+  GI c ks s -> ppcs s t = ((e, k) :: rest, kont, l) ->
+  trans c t e k rest (psh s) (cls_of kont) p' s' -> local_ok c p' ->
+  GI c ks {| ppcs := upd (ppcs s) t p'; psh := s' |}.
 Proof.
   intros s t e k rest kont l p' s' G E T L.
   assert (Hk : tkey (ppcs s t) = Some k) by (rewrite E; reflexivity).
@@ -140,24 +149,27 @@ Proof.
   (* no other task holds k while t holds it *)
   assert (Hexcl : forall u, holds (cls_of kont) = true -> tkey (ppcs s u) = Some k -> holds (tcls (ppcs s u)) = true -> u = t).
   { intros u Hh Hu1 Hu2.
-    assert (A : lock (psh s) k = Some t) by (apply (gi_lock c s G); rewrite Hk, Hc; auto).
-    assert (B : lock (psh s) k = Some u) by (apply (gi_lock c s G); auto).
+    assert (A : lock (psh s) k = Some t) by (apply (gi_lock c ks s G); rewrite Hk, Hc; auto).
+    assert (B : lock (psh s) k = Some u) by (apply (gi_lock c ks s G); auto).
     congruence. }
   assert (Hfree : forall u, lock (psh s) k = None -> tkey (ppcs s u) = Some k -> holds (tcls (ppcs s u)) = true -> False).
   { intros u Hn Hu1 Hu2.
-    assert (B : lock (psh s) k = Some u) by (apply (gi_lock c s G); auto). congruence. }
+    assert (B : lock (psh s) k = Some u) by (apply (gi_lock c ks s G); auto). congruence. }
   assert (Ft_lock : lock (psh s) k = Some t <-> holds (cls_of kont) = true).
-  { rewrite (gi_lock c s G k t), Hk, Hc. intuition. }
+  { rewrite (gi_lock c ks s G k t), Hk, Hc. intuition. }
   assert (Ft_pre : cls_of kont = CPre -> value (psh s) k = None /\ ~ In k (calls (psh s))).
-  { intro X. apply (gi_pre c s G t k Hk). rewrite Hc. exact X. }
+  { intro X. apply (gi_pre c ks s G t k Hk). rewrite Hc. exact X. }
   assert (Ft_mid : cls_of kont = CMid -> value (psh s) k = None /\ In k (calls (psh s))).
-  { intro X. apply (gi_mid c s G t k Hk). rewrite Hc. exact X. }
+  { intro X. apply (gi_mid c ks s G t k Hk). rewrite Hc. exact X. }
   assert (Ft_post : cls_of kont = CPost -> value (psh s) k = Some (outc c k)).
-  { intro X. apply (gi_post c s G t k Hk). rewrite Hc. exact X. }
+  { intro X. apply (gi_post c ks s G t k Hk). rewrite Hc. exact X. }
   assert (Ft_called : In k (calls (psh s)) -> holds (cls_of kont) = true -> cls_of kont <> CMid -> value (psh s) k <> None).
-  { intros Hin Hh Hnm. destruct (gi_called c s G k Hin) as [V|(u & U1 & U2)]; [exact V|].
+  { intros Hin Hh Hnm. destruct (gi_called c ks s G k Hin) as [V|(u & U1 & U2)]; [exact V|].
     assert (u = t) by (apply Hexcl; auto; rewrite U2; reflexivity). subst u. rewrite Hc in U2. contradiction. }
+  assert (Ft_use : cls_of kont = CUse -> value (psh s) k = Some (outc c k)).
+  { intro X. apply (gi_use c ks s G t k Hk). rewrite Hc. exact X. }
   inversion T; subst; clear T.
+  all: try match goal with Hrem : fst (fst ?p) = (_, ?k1) :: _ |- _ => pose proof (tkey_of_rem _ _ _ _ Hrem) as Htk end.
   all: repeat match goal with H : ?X = cls_of ?K |- _ => rewrite <- H in *; clear H end.
   all: cbn [holds] in *.
   all: constructor; cbn [ppcs psh].
@@ -166,26 +178,31 @@ Proof.
   all: repeat match goal with H : calls ?x = _ |- _ => rewrite H; clear H end.
   all: repeat match goal with H : results ?x = _ |- _ => rewrite H; clear H end.
   (* gi_local *)
-  all: try (intro u; destruct (Nat.eq_dec u t) as [->|Hne]; [rewrite Hme; exact L | rewrite (Hoth u Hne); apply (gi_local c s G)]).
+  all: try (intro u; destruct (Nat.eq_dec u t) as [->|Hne]; [rewrite Hme; exact L | rewrite (Hoth u Hne); apply (gi_local c ks s G)]).
   all: try solve [ intros kk uu; posefacts G uu kk; tsplit uu t Hme Hoth; ksplit kk k; fin ].
   all: try solve [ intros uu kk; posefacts G uu kk; tsplit uu t Hme Hoth; ksplit kk k; fin ].
-  all: try solve [ intros kk oo; pose proof (gi_value c s G kk oo); ksplit kk k; fin ].
+  all: try solve [ intros kk oo; pose proof (gi_value c ks s G kk oo); ksplit kk k; fin ].
   (* gi_called when neither the log nor the values change *)
-  all: try solve [ intros kk Hin; destruct (gi_called c s G kk Hin) as [V|(uu & U1 & U2)]; [left; exact V|];
+  all: try solve [ intros kk Hin; destruct (gi_called c ks s G kk Hin) as [V|(uu & U1 & U2)]; [left; exact V|];
                    destruct (Nat.eq_dec uu t) as [->|Hne];
                    [ rewrite Hk in U1; rewrite Hc in U2; first [discriminate | right; exists t; rewrite Hme; split; congruence]
                    | right; exists uu; rewrite (Hoth uu Hne); auto ] ].
-  all: try exact (gi_nodup c s G).
-  all: try exact (gi_results c s G).
+  all: try exact (gi_nodup c ks s G).
+  all: try exact (gi_results c ks s G).
+  (* gi_complete when neither the results nor the remaining lookups change *)
+  all: try solve [ intro uu; destruct (Nat.eq_dec uu t) as [->|Hne];
+                   [ rewrite Hme; pose proof (gi_complete c ks s G t) as X; rewrite E in X; rewrite <- X;
+                     f_equal; f_equal; assumption
+                   | rewrite (Hoth uu Hne); apply (gi_complete c ks s G) ] ].
   - (* T_hold_post, gi_post: the value t has just seen is the scripted one *)
     intros uu kk A B. posefacts G uu kk. tsplit uu t Hme Hoth.
     + assert (kk = k) by congruence. subst kk.
-      match goal with V : value (psh s) k = Some ?o |- _ => destruct (gi_value c s G k o V) as [-> _]; exact V end.
+      match goal with V : value (psh s) k = Some ?o |- _ => destruct (gi_value c ks s G k o V) as [-> _]; exact V end.
     + fin.
   - (* T_call, gi_value *)
-    intros kk oo V. destruct (gi_value c s G kk oo V) as [A B]. split; [exact A|]. apply in_or_app. left. exact B.
+    intros kk oo V. destruct (gi_value c ks s G kk oo V) as [A B]. split; [exact A|]. apply in_or_app. left. exact B.
   - (* T_call, gi_nodup *)
-    destruct (Ft_pre eq_refl) as [_ Hn]. apply NoDup_app_single; [apply (gi_nodup c s G)|exact Hn].
+    destruct (Ft_pre eq_refl) as [_ Hn]. apply NoDup_app_single; [apply (gi_nodup c ks s G)|exact Hn].
   - (* T_call, gi_pre: another task about to call has another key *)
     intros uu kk A B. posefacts G uu kk. tsplit uu t Hme Hoth.
     + norm. congruence.
@@ -201,7 +218,7 @@ Proof.
       destruct Q as [Q1 Q2]. split; [exact Q1|]. apply in_or_app. left. exact Q2.
   - (* T_call, gi_called *)
     intros kk Hin. apply in_app_or in Hin. destruct Hin as [Hin|[<-|[]]].
-    + destruct (gi_called c s G kk Hin) as [V|(uu & U1 & U2)]; [left; exact V|].
+    + destruct (gi_called c ks s G kk Hin) as [V|(uu & U1 & U2)]; [left; exact V|].
       destruct (Nat.eq_dec uu t) as [->|Hne].
       * rewrite Hc in U2. discriminate.
       * right. exists uu. rewrite (Hoth uu Hne). auto.
@@ -216,16 +233,26 @@ Proof.
     intros kk Hin. destruct (Nat.eq_dec kk k) as [->|Hnk].
     + left. rewrite upd_same. discriminate.
     + rewrite upd_other by assumption.
-      destruct (gi_called c s G kk Hin) as [V|(uu & U1 & U2)]; [left; exact V|].
+      destruct (gi_called c ks s G kk Hin) as [V|(uu & U1 & U2)]; [left; exact V|].
       destruct (Nat.eq_dec uu t) as [->|Hne].
       * rewrite Hk in U1. congruence.
       * right. exists uu. rewrite (Hoth uu Hne). auto.
+  - (* T_store, gi_results: the key stored now had no value, so no recorded result is for it *)
+    intros uu kk oo Hin. destruct (gi_results c ks s G uu kk oo Hin) as [A B]. split; [exact A|].
+    destruct (Nat.eq_dec kk k) as [->|Hnk].
+    + destruct (Ft_mid eq_refl) as [V _]. congruence.
+    + rewrite upd_other by assumption. exact B.
   - (* T_finish, gi_results *)
     intros uu kk oo Hin. destruct (Nat.eq_dec uu t) as [->|Hne].
     + rewrite upd_same in Hin. apply in_app_or in Hin. destruct Hin as [Hin|[Hin|[]]].
-      * apply (gi_results c s G t kk oo Hin).
-      * inversion Hin; subst. reflexivity.
-    + rewrite upd_other in Hin by assumption. apply (gi_results c s G uu kk oo Hin).
+      * apply (gi_results c ks s G t kk oo Hin).
+      * inversion Hin; subst. split; [reflexivity|]. apply Ft_use. reflexivity.
+    + rewrite upd_other in Hin by assumption. apply (gi_results c ks s G uu kk oo Hin).
+  - (* T_finish, gi_complete *)
+    intro uu. destruct (Nat.eq_dec uu t) as [->|Hne].
+    + rewrite Hme, upd_same. pose proof (gi_complete c ks s G t) as X. rewrite E in X. cbn in X. cbn.
+      rewrite map_app, <- app_assoc. cbn. exact X.
+    + rewrite (Hoth uu Hne), upd_other by assumption. apply (gi_complete c ks s G).
 Qed.
 
 Ltac in_list := cbn; repeat (first [left; reflexivity | right]).
@@ -244,12 +271,12 @@ Ltac trans_tac :=
         | apply T_store; reflexivity
         | apply T_release; reflexivity ].
 
-Lemma gi_pmstep : forall s t, GI c s -> GI c (pmstep canon c t s).
+Lemma gi_pmstep : forall s t, GI c ks s -> GI c ks (pmstep canon c t s).
 Proof.
   intros s t G. unfold pmstep.
   destruct (ppcs s t) as [[rem kont] l] eqn:E.
   destruct rem as [|[e k] rest]; [exact G|].
-  pose proof (gi_local c s G t) as L0. rewrite E in L0. cbn in L0.
+  pose proof (gi_local c ks s G t) as L0. rewrite E in L0. cbn in L0.
   destruct L0 as [->|(Hin & Hf & Hg & Hr & Hlk)].
   - (* the lookup has not begun: the entry point's first instruction *)
     destruct e; cbn;
@@ -260,7 +287,7 @@ Proof.
     all: try (specialize (Hr eq_refl); subst r).
     all: try (specialize (Hlk eq_refl); destruct lk as [lf|]; [|contradiction]).
     all: cbn.
-    all: try (rewrite (gi_post c s G t k ltac:(rewrite E; reflexivity) ltac:(rewrite E; reflexivity))).
+    all: try (rewrite (gi_post c ks s G t k ltac:(rewrite E; reflexivity) ltac:(rewrite E; reflexivity))).
     all: try (match goal with |- context [lock (psh ?s0) ?k0] => destruct (lock (psh s0) k0) eqn:Hlock end).
     all: try (match goal with |- context [value (psh ?s0) ?k0] => destruct (value (psh s0) k0) eqn:Hval end).
     all: try (match goal with |- context [match ?n with O => _ | S _ => _ end] => is_var n; destruct n end).
@@ -270,7 +297,9 @@ Qed.
 End Step.
 
 (* ---- every instruction-level run ---- *)
-Lemma gi_init : forall pc, GI (cfg pc) (pinit pc).
+Definition allkeys (pc : pconfig) (t : task) : list key := map snd (nth t (ptasks pc) []).
+
+Lemma gi_init : forall pc, GI (cfg pc) (allkeys pc) (pinit pc).
 Proof.
   intro pc. constructor; cbn.
   - intro t. unfold local_ok. destruct (nth t (ptasks pc) []) as [|[e k] r]; [reflexivity|left; reflexivity].
@@ -281,64 +310,16 @@ Proof.
   - intros t k _ H. discriminate.
   - intros t k _ H. discriminate.
   - intros k [].
+  - intros t k _ H. discriminate.
   - intros t k o [].
+  - intro t. reflexivity.
 Qed.
 
-Lemma pmrun_gi : forall pc ms, GI (cfg pc) (pmrun canon pc ms).
+Lemma pmrun_gi : forall pc ms, GI (cfg pc) (allkeys pc) (pmrun canon pc ms).
 Proof.
   intros pc ms. unfold pmrun. generalize (gi_init pc). generalize (pinit pc).
   induction ms as [|t r IH]; intros s G; cbn; [exact G|]. apply IH. apply gi_pmstep. exact G.
 Qed.
-
-Section FineTheorems.
-Variable pc : pconfig.
-Variable ms : list task.
-Local Notation s := (pmrun canon pc ms).
-
-Lemma pm_at_most_once : forall k, psupplier_calls s k <= 1.
-Proof.
-  intro k. unfold psupplier_calls. pose proof (gi_nodup _ _ (pmrun_gi pc ms)) as H.
-  rewrite (NoDup_count_occ Nat.eq_dec) in H. apply H.
-Qed.
-
-Lemma pm_same_outcome : forall t i k o, ptask_result s t i = Some (k, o) -> o = outc (pbase pc) k.
-Proof.
-  intros t i k o H. unfold ptask_result in H. apply nth_error_In in H.
-  apply (gi_results _ _ (pmrun_gi pc ms) t k o H).
-Qed.
-
-(* the slot's lock is held by t exactly when t is inside get for that slot, between the acquisition and the end of
-   get; hence two tasks are never inside the critical section of one slot *)
-Lemma pm_mutual_exclusion : forall k t u,
-  lock (psh s) k = Some t ->
-  tkey (ppcs s u) = Some k -> holds (tcls (ppcs s u)) = true -> u = t.
-Proof.
-  intros k t u Ht Hu1 Hu2.
-  assert (B : lock (psh s) k = Some u) by (apply (gi_lock _ _ (pmrun_gi pc ms)); auto). congruence.
-Qed.
-
-Lemma pm_lock_iff : forall k t,
-  lock (psh s) k = Some t <-> (tkey (ppcs s t) = Some k /\ holds (tcls (ppcs s t)) = true).
-Proof. intros. apply (gi_lock _ _ (pmrun_gi pc ms)). Qed.
-
-(* a remembered value is the supplier's scripted answer, and the supplier was asked for it *)
-Lemma pm_value : forall k o, value (psh s) k = Some o -> o = outc (pbase pc) k /\ psupplier_calls s k = 1.
-Proof.
-  intros k o H. destruct (gi_value _ _ (pmrun_gi pc ms) k o H) as [A B]. split; [exact A|].
-  pose proof (pm_at_most_once k). unfold psupplier_calls in *.
-  apply (count_occ_In Nat.eq_dec) in B. lia.
-Qed.
-
-(* no task panics (unwrap of an empty slot), none is left with an ill-formed continuation *)
-Lemma pm_never_stuck : forall t, snd (fst (ppcs s t)) <> [IAbort].
-Proof.
-  intro t. pose proof (gi_local _ _ (pmrun_gi pc ms) t) as L. unfold local_ok in L.
-  destruct (ppcs s t) as [[rem kont] l]. cbn. destruct rem as [|[e k] r].
-  - subst. discriminate.
-  - destruct L as [->|(Hin & _)]; [discriminate|].
-    intro X. subst kont. destruct e; cbn in Hin; intuition discriminate.
-Qed.
-End FineTheorems.
 
 (* ---- no deadlock at instruction granularity: the only instruction that can fail to make progress is a
         lock().await on a held lock; while some task is unfinished, some unfinished task is not in that situation ---- *)
@@ -369,6 +350,83 @@ Proof.
   apply IH. apply pmstep_range. exact H.
 Qed.
 
+Section FineTheorems.
+Variable pc : pconfig.
+Variable ms : list task.
+Local Notation s := (pmrun canon pc ms).
+
+Lemma pm_at_most_once : forall k, psupplier_calls s k <= 1.
+Proof.
+  intro k. unfold psupplier_calls. pose proof (gi_nodup _ _ _ (pmrun_gi pc ms)) as H.
+  rewrite (NoDup_count_occ Nat.eq_dec) in H. apply H.
+Qed.
+
+Lemma pm_same_outcome : forall t i k o, ptask_result s t i = Some (k, o) -> o = outc (pbase pc) k.
+Proof.
+  intros t i k o H. unfold ptask_result in H. apply nth_error_In in H.
+  apply (gi_results _ _ _ (pmrun_gi pc ms) t k o H).
+Qed.
+
+(* the slot's lock is held by t exactly when t is inside get for that slot, between the acquisition and the end of
+   get; hence two tasks are never inside the critical section of one slot *)
+Lemma pm_mutual_exclusion : forall k t u,
+  lock (psh s) k = Some t ->
+  tkey (ppcs s u) = Some k -> holds (tcls (ppcs s u)) = true -> u = t.
+Proof.
+  intros k t u Ht Hu1 Hu2.
+  assert (B : lock (psh s) k = Some u) by (apply (gi_lock _ _ _ (pmrun_gi pc ms)); auto). congruence.
+Qed.
+
+Lemma pm_lock_iff : forall k t,
+  lock (psh s) k = Some t <-> (tkey (ppcs s t) = Some k /\ holds (tcls (ppcs s t)) = true).
+Proof. intros. apply (gi_lock _ _ _ (pmrun_gi pc ms)). Qed.
+
+(* a remembered value is the supplier's scripted answer, and the supplier was asked for it *)
+Lemma pm_value : forall k o, value (psh s) k = Some o -> o = outc (pbase pc) k /\ psupplier_calls s k = 1.
+Proof.
+  intros k o H. destruct (gi_value _ _ _ (pmrun_gi pc ms) k o H) as [A B]. split; [exact A|].
+  pose proof (pm_at_most_once k). unfold psupplier_calls in *.
+  apply (count_occ_In Nat.eq_dec) in B. lia.
+Qed.
+
+(* no request is lost: when every task has finished, each has one result per lookup, in order *)
+Lemma pm_results_complete : forall t,
+  pall_done pc s = true -> map fst (results (psh s) t) = map snd (nth t (ptasks pc) []).
+Proof.
+  intros t Hd. pose proof (gi_complete _ _ _ (pmrun_gi pc ms) t) as X. unfold allkeys in X.
+  assert (R : fst (fst (ppcs s t)) = []).
+  { destruct (Nat.lt_ge_cases t (length (ptasks pc))) as [A|A].
+    - unfold pall_done in Hd. rewrite forallb_forall in Hd. specialize (Hd t).
+      assert (In t (seq 0 (length (ptasks pc)))) by (apply in_seq; lia). specialize (Hd H).
+      unfold ptask_done in Hd. destruct (fst (fst (ppcs s t))); [reflexivity|discriminate].
+    - apply pmrun_range. exact A. }
+  rewrite R in X. cbn in X. rewrite app_nil_r in X. exact X.
+Qed.
+
+(* ... and every requested slot was fetched exactly once *)
+Lemma pm_exactly_once : forall k,
+  pall_done pc s = true -> In k (concat (tasks (cfg pc))) -> psupplier_calls s k = 1.
+Proof.
+  intros k Hd Hk. cbn [cfg tasks] in Hk. apply in_concat in Hk. destruct Hk as (l & Hl & Hkl).
+  apply in_map_iff in Hl. destruct Hl as (lk & <- & Hlk).
+  apply (In_nth _ _ []) in Hlk. destruct Hlk as (t & _ & <-).
+  assert (Hkl' : In k (map fst (results (psh s) t))) by (rewrite (pm_results_complete t Hd); exact Hkl).
+  clear Hkl. rename Hkl' into Hkl. apply in_map_iff in Hkl. destruct Hkl as ([k' o] & Hf & Hin).
+  cbn in Hf. subst k'. destruct (gi_results _ _ _ (pmrun_gi pc ms) t k o Hin) as [_ V].
+  apply (pm_value k o V).
+Qed.
+
+(* no task panics (unwrap of an empty slot), none is left with an ill-formed continuation *)
+Lemma pm_never_stuck : forall t, snd (fst (ppcs s t)) <> [IAbort].
+Proof.
+  intro t. pose proof (gi_local _ _ _ (pmrun_gi pc ms) t) as L. unfold local_ok in L.
+  destruct (ppcs s t) as [[rem kont] l]. cbn. destruct rem as [|[e k] r].
+  - subst. discriminate.
+  - destruct L as [->|(Hin & _)]; [discriminate|].
+    intro X. subst kont. destruct e; cbn in Hin; intuition discriminate.
+Qed.
+End FineTheorems.
+
 Lemma forallb_false_ex : forall (f : nat -> bool) l, forallb f l = false -> exists x, In x l /\ f x = false.
 Proof.
   induction l as [|a r IH]; cbn; intro H; [discriminate|].
@@ -390,7 +448,7 @@ Proof.
   unfold blocked in Hb. destruct (ppcs s t0) as [[rem kont] l] eqn:E.
   destruct rem as [|[e k] rest]; [discriminate|]. destruct kont as [|i more]; [discriminate|].
   destruct i; try discriminate. destruct (lock (psh s) k) as [u|] eqn:Hl; [|discriminate].
-  apply (gi_lock _ _ G) in Hl. destruct Hl as [U1 U2].
+  apply (gi_lock _ _ _ G) in Hl. destruct Hl as [U1 U2].
   exists u. split; [|split].
   - destruct (Nat.lt_ge_cases u (length (ptasks pc))) as [A|A]; [exact A|].
     pose proof (pmrun_range canon pc ms u A) as R. fold s in R. unfold tkey in U1. rewrite R in U1. discriminate.
@@ -426,6 +484,16 @@ Lemma src_pm_no_deadlock : forall (pc : pconfig) (ms : list task),
   exists t, t < length (ptasks pc) /\ ptask_done (pmrun src_program pc ms) t = false /\
             blocked (pmrun src_program pc ms) t = false.
 Proof. rewrite src_is_canon. exact pm_no_deadlock. Qed.
+
+Lemma src_pm_results_complete : forall (pc : pconfig) (ms : list task) (t : task),
+  pall_done pc (pmrun src_program pc ms) = true ->
+  map fst (results (psh (pmrun src_program pc ms)) t) = map snd (nth t (ptasks pc) []).
+Proof. rewrite src_is_canon. exact pm_results_complete. Qed.
+
+Lemma src_pm_exactly_once : forall (pc : pconfig) (ms : list task) (k : key),
+  pall_done pc (pmrun src_program pc ms) = true -> In k (concat (tasks (cfg pc))) ->
+  psupplier_calls (pmrun src_program pc ms) k = 1.
+Proof. rewrite src_is_canon. exact pm_exactly_once. Qed.
 
 Lemma src_pm_never_stuck : forall (pc : pconfig) (ms : list task) (t : task),
   snd (fst (ppcs (pmrun src_program pc ms) t)) <> [IAbort].
